@@ -120,6 +120,8 @@ pub fn fuzz_line(s: &mut S, me: &str) -> (String, String) {
             "+v n4 +v n3 -v n4", "+ooo n1 n1 n1", "+o nobody", "-o n0", "+v out", "+o out", "-h out", "+q out", "-v out", "+a out n1", "+bbb a b c", "+eI x y", "-beI a b c",
             "+i-i+i-i", "+oO", "-oO", "+iw", "-iw", "+r", "-r", "+lv 5 n1", "+kv k n1", "+b-b x!y@z x!y@z",
             "+o", "+l", "+k", "+l x", "+l -5", "+z", "-", "+", "+o-", "+b \u{e9}*?", "+I *?*",
+            // arguments a validator may see differently from the handler (blanks, signs, radix)
+            "+l :10 ", "+l : 5", "+l :+5", "+l 0x10", "+l 1e3", "+l :", "+k :key with blank", "+k :", "+lk :7  x", "+o :n1 ", "+v : n2", "+b : ", "+l 00000000000000000007",
         ];
         let ms = strings[s.pick(strings.len())];
         return (format!("MODE {} {}", target, ms), format!("MODE/{}", ms.split(' ').next().unwrap_or("")));
